@@ -21,6 +21,8 @@ from concurrent.futures import ThreadPoolExecutor
 from .. import vlib
 from ..eccrig import SECP, SMALL, h_G, h_mul, retarget, scripted_rng
 
+# bounded JVM heaps: up to 18 JVMs run side by side, the default (1/4 of RAM each) invites the OOM killer
+JVM_ENV = {"JAVA_TOOL_OPTIONS": "-Xmx3g"}
 CHUNK = [6]   # events per JVM in stage C (raised in the thorough tier)
 VECTORS = os.path.join(vlib.REPO, "tests", "unit", "bip340", "test-vectors.csv")
 
@@ -71,7 +73,7 @@ def _run_models(tier):
     """All TLC runs of stage A / B (no call into the library, safe to run beside the stage-C generation)."""
     devs = []
     for cfgn, expect in (("S1_dev_nolen", "LenStrict"), ("S1_dev_noparity", "VerifyExact")):
-        r = vlib.tlc("MC_Schnorr", f"MC_Schnorr_{cfgn}.cfg", workers=8, timeout=1200)
+        r = vlib.tlc("MC_Schnorr", f"MC_Schnorr_{cfgn}.cfg", workers=8, timeout=1200, heap="2g")
         if r.completed or r.invariant != expect:
             raise vlib.MachineryFailure(f"vacuity guard: deviation {cfgn} was not refuted through {expect} (got {r.invariant}):\n{r.error_text()[:600]}")
         devs.append((cfgn, r))
@@ -80,8 +82,8 @@ def _run_models(tier):
     for cn, cfgname in curves:
         cfg = f"MC_Schnorr_{cfgname}.cfg"
         with ThreadPoolExecutor(2) as ex:
-            fa = ex.submit(vlib.tlc_ok, "MC_Schnorr", cfg, workers=16, timeout=3000, tag=f"c12a-{cn}-{os.getpid()}")
-            fb = ex.submit(vlib.tlc_ok, "MC_Schnorr", cfg, workers=16, timeout=3000, native=True, tag=f"c12b-{cn}-{os.getpid()}")
+            fa = ex.submit(vlib.tlc_ok, "MC_Schnorr", cfg, workers=16, timeout=3000, heap="4g", tag=f"c12a-{cn}-{os.getpid()}")
+            fb = ex.submit(vlib.tlc_ok, "MC_Schnorr", cfg, workers=16, timeout=3000, heap="4g", native=True, tag=f"c12b-{cn}-{os.getpid()}")
             runs.append((cn, cfg, fa.result(), fb.result()))
     return devs, runs
 
@@ -328,7 +330,7 @@ def _gen_c(ctx, rnd):
 
 def _validate(events, tag):
     slim = [{k: v for k, v in e.items() if k not in ("cls", "exc", "got", "auxgiven")} for e in events]
-    return vlib.validate_events("Trace_Schnorr", slim, cfg="Trace_Schnorr.cfg", native=True, chunk=CHUNK[0], jobs=16, tag=tag, timeout=3000)
+    return vlib.validate_events("Trace_Schnorr", slim, cfg="Trace_Schnorr.cfg", native=True, chunk=CHUNK[0], jobs=16, env=JVM_ENV, tag=tag, timeout=3000)
 
 
 def _report(ctx, events, verdicts, tag):
@@ -385,7 +387,7 @@ def _selftests(ctx):
     probe(dict(op="verify", pk=[0] + v0["pk"], msg=v0["msg"], sig=v0["sig"], accept=True), "verify-accepts-invalid-pk-length")
     probe(dict(op="verify", pk=v0["pk"], msg=v0["msg"], sig=v0["sig"] + [0], accept=True), "verify-accepts-invalid-sig-length")
     probe(dict(op="pub", key=v0["key"], ok=True, res=v0["pk"][:-1] + [v0["pk"][-1] ^ 1]), "pubkey-wrong")
-    verdicts, stats = vlib.validate_events("Trace_Schnorr", vec + [e for e, _ in probes], cfg="Trace_Schnorr.cfg", native=True, chunk=3, jobs=16,
+    verdicts, stats = vlib.validate_events("Trace_Schnorr", vec + [e for e, _ in probes], cfg="Trace_Schnorr.cfg", native=True, chunk=3, jobs=16, env=JVM_ENV,
                                            tag="c12self", timeout=3000)
     bad = [(e["id"], verdicts[e["id"]]) for e in vec if verdicts[e["id"]] != "ok"]
     if bad:
@@ -446,7 +448,7 @@ def replay(ctx, path):
     for curve, ev in groups.items():
         slim = [{k: v for k, v in e.items() if k not in ("cls", "exc", "got", "auxgiven")} for e in ev]
         cfg = f"Trace_Schnorr_{curve}.cfg" if curve else "Trace_Schnorr.cfg"
-        verdicts, stats = vlib.validate_events("Trace_Schnorr", slim, cfg=cfg, native=True, chunk=6 if curve is None else 500, jobs=16,
+        verdicts, stats = vlib.validate_events("Trace_Schnorr", slim, cfg=cfg, native=True, chunk=6 if curve is None else 500, jobs=16, env=JVM_ENV,
                                                tag="c12r", timeout=3000)
         for e in ev:
             if verdicts[e["id"]] != "ok":
